@@ -271,6 +271,6 @@ package majority
 
 // the parameter schema listed for this method is that of its parameter struct
 //@ func (*Majority).MethodParameters
-//@   property C20
+//@   property C20 C01 C09 C11
 //@   nopanic
 //@   ensures [schema_of_the_methods_parameters] typeis(result, MajorityHeuristicParams)
